@@ -1013,7 +1013,7 @@ Lemma choices_retype_witness :
   (exists k, import_key O_yes KOct (ex_oct [(K "key_ops", PStr (asc "sign"))]) [] = Ok k) /\
   (exists k, import_key O_yes KOct (ex_oct [(K "use", PList [PStr (asc "sig")])]) [] = Ok k) /\
   import_key O_yes KOct (ex_oct [(K "use", PStr (asc "sig")); (K "key_ops", PStr (asc "sign"))]) [] = Err EValue /\
-  import_key O_yes KOct (ex_oct [(K "use", PList [PStr (asc "sig")]); (K "key_ops", PList [PStr (asc "sign")])]) [] = Err EType.
+  import_key O_yes KOct (ex_oct [(K "use", PList [PStr (asc "sig")]); (K "key_ops", PList [PStr (asc "sign")])]) [] = Err EValue.
 Proof.
   split; [|split; [|split]].
   - eexists. vm_compute. reflexivity.
